@@ -275,6 +275,53 @@ func (r *Runner) replStep(op string, st []any) (string, bool, bool) {
 		r.ls.L0Retention = d
 		err := r.ls.EnforceL0RetentionByTime(ctx)
 		return errClass(err), false, true
+	case "AgeFile": // place the age of the k-th replica file of a level: "old" (2 h ago) or "fresh" (now)
+		lvl, k := argInt(st, 1, 0), argInt(st, 2, 1)
+		var fs []remFile
+		for _, f := range r.listRemote() {
+			if f.lvl == lvl {
+				fs = append(fs, f)
+			}
+		}
+		if len(fs) == 0 {
+			return "skip", false, true
+		}
+		if k < 1 {
+			k = 1
+		}
+		if k > len(fs) {
+			k = len(fs)
+		}
+		t := time.Now()
+		if argStr(st, 3, "old") == "old" {
+			t = t.Add(-2 * time.Hour)
+		}
+		// keep the recorder from taking the re-dated file for a new one
+		f := fs[k-1]
+		delete(r.seenRem, fmt.Sprintf("%s/%d/%d", f.name, f.size, f.mtime.UnixNano()))
+		err := os.Chtimes(f.name, t, t)
+		r.seenRem[fmt.Sprintf("%s/%d/%d", f.name, f.size, t.UnixNano())] = true
+		return errClass(err), false, true
+	case "L0RetentionAbs": // level-0 retention with a fixed window of one hour (ages as placed by AgeFile)
+		if !r.lsUp {
+			return "skip", false, true
+		}
+		r.ls.L0Retention = time.Hour
+		return errClass(r.ls.EnforceL0RetentionByTime(ctx)), false, true
+	case "SnapRetentionAbs": // snapshot retention with a cut-off one hour ago + cascade
+		if !r.lsUp {
+			return "skip", false, true
+		}
+		floor, err := r.ls.EnforceSnapshotRetention(ctx, time.Now().Add(-time.Hour))
+		if err != nil {
+			return errClass(err), false, true
+		}
+		for lvl := 1; lvl <= r.maxLevel(); lvl++ {
+			if err := r.ls.EnforceRetentionByTXID(ctx, lvl, floor); err != nil {
+				return errClass(err), false, true
+			}
+		}
+		return "ok", false, true
 	case "RetByTXID": // EnforceRetentionByTXID(level, floor) with floor = max TXID of the k-th oldest snapshot on the replica
 		// (the only kind of floor the daemon ever passes: everything below it is covered by that snapshot)
 		if !r.lsUp {
